@@ -66,8 +66,10 @@ int c02fmt_snprintf(char *s, size_t n, const char *fmt, ...);
 #define FMT_SECOND 0         /* second G0 designation code (ext->charset_code[1]); 8 => Polish when FMT_NATIONAL == 0 */
 #endif
 
+#ifdef C02FMT_ROWS            /* the 52 KB decoder and the 9 KB vbi_page are compiled in only for the row obligations */
 static vbi_decoder VBI;
 static vbi_page PG;
+#endif
 /* The page object: a typed replica of cache_page whose union part is the plain LOP (cache_page_size() bytes) followed by a
    guard area up to sizeof(cache_page).  A cached LOP is allocated with cache_page_size() bytes only, so the formatter must not
    touch the guard: natively it is ASan-poisoned (any access aborts), under CBMC its content is nondeterministic (a read that
@@ -105,6 +107,7 @@ struct c02_guard nondet_c02_guard(void);
 
 static const vbi_rgba ref_default_cmap8[8] = { 0xFF000000u, 0xFF0000FFu, 0xFF00FF00u, 0xFF00FFFFu, 0xFFFF0000u, 0xFFFF00FFu, 0xFFFFFF00u, 0xFFFFFFFFu };
 
+#ifdef C02FMT_ROWS
 static void setup_decoder(unsigned code0, unsigned code1)
 {
   struct ttx_extension *ext = &VBI.vt.default_magazine.extension;
@@ -117,6 +120,7 @@ static void setup_decoder(unsigned code0, unsigned code1)
   for (i = 0; i < 8; i++) ext->color_map[i] = ref_default_cmap8[i];
   ext->charset_code[0] = code0; ext->charset_code[1] = code1;
 }
+#endif
 
 static cache_page *setup_page(unsigned national, unsigned flags)
 {
@@ -133,8 +137,43 @@ static cache_page *setup_page(unsigned national, unsigned flags)
 }
 
 /* =====================================================================================================
- * (b) Level 1 formatting of row 1
+ * (b) Level 1 formatting of one row
  * ===================================================================================================== */
+#ifdef C02FMT_ROWS
+#define SENTINEL 0x2603u
+/* every cell of the output gets a sentinel before the call: the write set of the formatter is observable */
+static void prefill_page(void)
+{ unsigned k; for (k = 0; k < 25 * 41; k++) { PG.text[k].unicode = SENTINEL; PG.text[k].size = VBI_NORMAL_SIZE; }
+  for (k = 0; k < 6; k++) { PG.nav_link[k].pgno = 0x7A7A; PG.nav_link[k].subno = 0x5B5B; }
+  for (k = 0; k < 64; k++) PG.nav_index[k] = (char) 0x6C; }
+/* frame: formatting rows 0..last touches text rows 0..last (+1 for a double height row `dh_row`) and the artificial
+   column 41 (index 40) of rows 0..24 (column_41), nothing else in text[]; the members around text[] have their documented
+   values (an index running off text[] lands in `dirty`; CBMC's own bounds check covers only the end of vbi_page) */
+static int frame_ok(unsigned last, int dh_row)
+{ unsigned r, c; int ok = 1;
+  for (r = last + 1; r < 25; r++) { if ((int) r == dh_row) continue; for (c = 0; c < 40; c++) ok &= (PG.text[r * 41 + c].unicode == SENTINEL); }
+  for (c = 25 * 41; c < 1056; c++) ok &= (PG.text[c].unicode == 0);
+  ok &= (PG.columns == 41);
+  ok &= (PG.dirty.y0 == 0 && PG.dirty.y1 == 24 && PG.dirty.roll == 0);
+  for (r = 0; r < 6; r++) ok &= (PG.nav_link[r].pgno == 0x7A7A && PG.nav_link[r].subno == 0x5B5B);
+  for (r = 0; r < 64; r++) ok &= (PG.nav_index[r] == (char) 0x6C);
+  return ok; }
+
+#ifdef FMT_PLAN
+/* Size plans for the double height obligation: the size codes of the row are concrete (the formatter's lower-row pass
+   advances its column index by the size it finds, a symbolic size makes that index symbolic and the query intractable,
+   measured), every other column is either received as planned or hit by a parity error (=> space): 2^k rows per plan. */
+static const uint8_t fmt_plan[3][40] = {
+  { 0x0D, 'A', 0x01, 'b', 0x1D, 0x07, 'c', 0x0C, 'd', 0x0F, 'E', 'x', 'F', 'y', 0x11, 0x1E, 0x7F, 0x12, 0x35, 0x0C,
+    0x13, 0x66, 0x0E, 'g', 'h', 0x0B, 0x0B, 'i', 'j', 0x0A, 0x0A, 0x0D, 0x08, 'k', 0x18, 'l', 0x0F, 'M', 'n', 'o' },
+  { 'p', 0x0E, 'q', 0x0D, 'r', 's', 0x16, 0x1A, 0x2B, 0x1E, 0x0F, 0x7A, 0x04, 0x19, 0x1B, '#', '$', 0x1B, '@', 0x0C,
+    0x1C, 0x0B, 0x0B, 0x0D, 'T', 0x09, 0x03, 0x1D, 'u', 0x0A, 0x0A, 0x1F, 0x15, 0x0C, 0x39, 0x0D, 0x17, 0x6C, 0x0F, 'z' },
+  { 0x0F, 0x14, 0x1E, 0x3F, 0x0D, 0x10, 0x5B, 0x60, 0x0F, 0x18, 0x7E, 0x02, 0x7B, 0x7C, 0x0E, 0x0D, 0x05, 0x1D, 0x0F, 'W',
+    'v', 0x0C, 0x08, 0x0D, 0x06, 'Q', 0x09, 0x0C, 0x0D, 0x1C, 0x0B, 0x0B, 0x0F, 0x11, 0x23, 0x5F, 0x0A, 0x0A, 0x0E, 0x0D },
+};
+static int fmt_is_size_code(unsigned v) { return v >= 0x0C && v <= 0x0F; }
+#endif
+
 V_HARNESS(h_fmt_row)
 {
   cache_page *cp; struct ref_row R; uint8_t code[FMT_NSYM]; uint8_t tx[40]; uint64_t errmask; unsigned flags, c; int ok;
@@ -146,17 +185,23 @@ V_HARNESS(h_fmt_row)
   cp = setup_page(FMT_NATIONAL, flags);
   /* the transmitter: 7-bit codes with odd parity; errmask flips the parity bit of a column (=> parity error at the receiver) */
   for (c = 0; c < 40; c++) {
+#ifdef FMT_PLAN
+    unsigned v = fmt_plan[FMT_PLAN][c];
+    unsigned bad = fmt_is_size_code(v) ? 0u : (unsigned) ((errmask >> c) & 1u);
+    uint8_t good_byte = (uint8_t) ref_par8(v), bad_byte = (uint8_t) (ref_par8(v) ^ 0x80u);
+    tx[c] = bad ? bad_byte : good_byte;             /* a choice between two constants: the formatter's size decisions stay concrete */
+#else
     unsigned v = (c >= FMT_FIRST && c < FMT_FIRST + FMT_NSYM) ? (code[c - FMT_FIRST] & 0x7Fu) : 0x20u;
     unsigned bad = (c >= FMT_FIRST && c < FMT_FIRST + FMT_NSYM) ? (unsigned) ((errmask >> (c - FMT_FIRST)) & 1u) : 0u;
     tx[c] = (uint8_t) (ref_par8(v) ^ (bad ? 0x80u : 0u));
+#endif
     CPMEM.raw_flat[FMT_ROW * 40 + c] = tx[c];
   }
 #if FMT_ROW != 1
   /* EN 300 706 12.2: double height / double size shall not be used in rows 23 and 24 */
   for (c = 0; c < FMT_NSYM; c++) V_ASSUME((code[c] & 0x7Fu) != 0x0D && (code[c] & 0x7Fu) != 0x0F);
 #endif
-  /* sentinel in row 2 of the output: "untouched" is observable */
-  for (c = 0; c < 41; c++) { PG.text[2 * 41 + c].unicode = 0x2603; PG.text[2 * 41 + c].size = VBI_NORMAL_SIZE; }
+  prefill_page();
 
   ok = vbi_format_vt_page(&VBI, &PG, cp, VBI_WST_LEVEL_1, FMT_DISPLAY_ROWS, FALSE);
   V_ASSERT(ok, "fmt_accepts_lop");
@@ -197,7 +242,8 @@ V_HARNESS(h_fmt_row)
   /* --- lower row of double height / double size --- */
   if (R.dh_cell) {
     V_REACH("double_height");
-    V_ASSERT((PG.double_height_lower >> 2) & 1, "fmt_dh_lower_flag");
+    V_ASSERT(PG.double_height_lower == 4, "fmt_dh_lower_flag");
+    V_ASSERT(frame_ok(1, 2), "fmt_frame_dh");
     for (c = 0; c < 40; c++) {
       vbi_char a = PG.text[2 * 41 + c];
       struct ref_cell e = R.cell[c];
@@ -215,14 +261,16 @@ V_HARNESS(h_fmt_row)
       }
     }
   }
+  V_ASSERT(frame_ok(2, -1), "fmt_frame");
   if (!R.dh_code) {
     V_REACH("single_height");
     V_ASSERT(PG.double_height_lower == 0, "fmt_no_dh_flag");
-    for (c = 0; c < 40; c++) V_ASSERT(PG.text[2 * 41 + c].unicode == 0x2603, "fmt_rows_beyond_display_rows_untouched");
+    V_ASSERT(frame_ok(1, -1), "fmt_rows_beyond_display_rows_untouched");
   }
 #else
   V_ASSERT(PG.double_height_lower == 0, "fmt_no_dh_flag");
   V_ASSERT(!R.dh_code && !R.dh_cell, "harness_no_dh_in_last_rows");
+  V_ASSERT(frame_ok(FMT_ROW, -1), "fmt_frame");
   /* the neighbouring row transmitted spaces only */
   for (c = 0; c < 40; c++) { vbi_char a = PG.text[(FMT_ROW - 1) * 41 + c];
     V_ASSERT(a.unicode == 0x0020 && a.foreground == 7 && a.background == 0 && a.size == VBI_NORMAL_SIZE && !a.flash && !a.conceal && a.opacity == page_op, "fmt_other_row_unaffected"); }
@@ -235,8 +283,9 @@ V_HARNESS(h_fmt_row)
   V_END();
 }
 
-/* Strict form of the held mosaic reset rule alone (Table 26, 1/E): short row, mosaics only.  Separate so that the
-   deviation of the code under test is one obligation, not a blocker for the rest. */
+/* Strict form of the held mosaic reset rule alone (Table 26, 1/E): short row, no KNOWN_ guard.  Separate so that the
+   deviation of the code under test is one obligation, not a blocker for the rest.  Row 24 (no double height there), the size
+   changes are normal size <-> double width. */
 V_HARNESS(h_fmt_held_reset)
 {
   cache_page *cp; struct ref_row R; uint8_t code[6]; uint8_t tx[40]; unsigned c; int ok;
@@ -244,15 +293,15 @@ V_HARNESS(h_fmt_held_reset)
   in_bytes(code, 6);
   setup_decoder(0, 0);
   cp = setup_page(0, 0);
-  for (c = 0; c < 40; c++) { tx[c] = (uint8_t) ref_par8(c < 6 ? (code[c] & 0x7Fu) : 0x20u); CPMEM.raw_flat[40 + c] = tx[c]; }
-  /* only mosaic/alpha colour codes, hold/release, size codes and mosaic characters: keeps the question on the reset rule */
+  for (c = 0; c < 40; c++) { tx[c] = (uint8_t) ref_par8(c < 6 ? (code[c] & 0x7Fu) : 0x20u); CPMEM.raw_flat[24 * 40 + c] = tx[c]; }
+  /* only mosaic/alpha colour codes, hold/release, size codes and characters: keeps the question on the reset rule */
   for (c = 0; c < 6; c++) { unsigned v = code[c] & 0x7Fu;
-    V_ASSUME(v >= 0x20 || v <= 0x07 || (v >= 0x10 && v <= 0x17) || v == 0x1E || v == 0x1F || v == 0x0C || v == 0x0D); }
-  ok = vbi_format_vt_page(&VBI, &PG, cp, VBI_WST_LEVEL_1, 2, FALSE);
+    V_ASSUME(v >= 0x20 || v <= 0x07 || (v >= 0x10 && v <= 0x17) || v == 0x1E || v == 0x1F || v == 0x0C || v == 0x0E); }
+  ok = vbi_format_vt_page(&VBI, &PG, cp, VBI_WST_LEVEL_1, 25, FALSE);
   V_ASSERT(ok, "fmt_accepts_lop");
   ref_row_l1_strict(&R, tx, ref_t32_subset(0), ref_t32_subset(0));
   for (c = 0; c < 8; c++) {
-    vbi_char a = PG.text[41 + c];
+    vbi_char a = PG.text[24 * 41 + c];
     struct ref_cell e = R.cell[c];
     if (e.held_space) { V_ASSERT(a.unicode == 0x0020 || a.unicode == 0xEE20 || a.unicode == 0xEE00, "fmt_held_mosaic_reset_on_mode_or_size_change"); }
     else V_ASSERT(ref_glyph_equiv(a.unicode, e.unicode), "fmt_unicode");
@@ -260,6 +309,7 @@ V_HARNESS(h_fmt_held_reset)
   if (R.saw_reset) V_REACH("reset");
   V_END();
 }
+#endif /* C02FMT_ROWS */
 
 /* =====================================================================================================
  * (c) character set mapping and designation
